@@ -9,7 +9,7 @@ import harness.compat  # noqa: F401
 from Bio.Data import CodonTable
 from harness import refmodel as rm
 from harness import strategies as S
-from harness.build import mkcollection, chrom_parent
+from harness.build import mkcollection, chrom_parent, as_container
 from harness.core import Leg, Prop
 from harness.readers import read_tbl, FormatError
 from inscripta.biocantor.exc import BioCantorException
@@ -47,11 +47,11 @@ def export(spec, seed=None, ctx=None, **kw):
         args = dict(translation_table=TranslationTable[spec["table"]], locus_tag_prefix=spec.get("prefix"),
                     genbank_flavor=GenbankFlavor[spec["flavor"]], locus_tag_jump_size=spec["jump"], submitter_lab_name=spec.get("lab"),
                     random_seed=spec["seed"] if seed is None else seed, **kw)
-        collection_to_tbl(colls, buf, **args)
+        collection_to_tbl(as_container(colls, spec.get("container", "list")), buf, **args)
         if ctx is not None:
             # the same collection OBJECT written again with the same seed gives the same table
             buf2 = io.StringIO()
-            collection_to_tbl(colls, buf2, **args)
+            collection_to_tbl(as_container(colls, spec.get("container", "list")), buf2, **args)
             ctx.true("second_export_same_file", buf2.getvalue() == buf.getvalue(), {"first": buf.getvalue()[:300], "second": buf2.getvalue()[:300]})
     return buf.getvalue()
 
@@ -225,6 +225,7 @@ def strat_tbl(draw, tier="quick"):
     sp.update({"flavor": draw(st.sampled_from(["EUKARYOTIC", "PROKARYOTIC"])),
                "table": draw(st.sampled_from(["DEFAULT", "STANDARD", "PROKARYOTE"])), "jump": draw(st.sampled_from([1, 5, 10])),
                "seed": draw(st.sampled_from([0, 0, 1, 7, 123456])), "prefix": draw(st.one_of(st.none(), st.just("PFX"))), "lab": draw(st.one_of(st.none(), st.just("LAB")))})
+    sp["container"] = draw(st.sampled_from(["list", "list", "tuple", "generator", "iterator"]))
     if draw(st.integers(0, 3)) == 0:
         # a table of several sequences; a later sequence may also have no gene at all
         sp["more"] = [draw(_one_collection(min_genes=draw(st.sampled_from([0, 1, 1])), tag="s%d" % k)) for k in range(draw(st.integers(1, 2)))]
